@@ -44,11 +44,80 @@ def gen_bool(rng, d, small):
     return ('tobool', gen_int(rng, d - 1, small))
 
 
+# ---- partially constant expressions: some leaves are observable (they print, or may fault) and stay run-time in both twins
+def gen_mixed_int(rng, d):
+    r = rng.random()
+    if d <= 0 or r < 0.25:
+        k = rng.random()
+        v = rng.choice([0, 1, 2, 3, 5])
+        if k < 0.45: return ('lit', v)
+        if k < 0.8: return ('eff', v)
+        return ('rt', v)
+    if r < 0.8: return ('bin', rng.choice(ARITH), gen_mixed_int(rng, d - 1), gen_mixed_int(rng, d - 1))
+    if r < 0.85: return ('un', 'neg', gen_mixed_int(rng, d - 1))
+    if r < 0.9: return ('tobyte', gen_mixed_int(rng, d - 1))
+    return ('toint', gen_mixed_bool(rng, d - 1))
+
+
+def gen_mixed_bool(rng, d):
+    r = rng.random()
+    if d <= 0 or r < 0.3:
+        k = rng.random()
+        if k < 0.35: return ('blit', rng.choice([0, 1]))
+        if k < 0.7: return ('beff', rng.choice([0, 1]))
+        return ('bin', rng.choice(CMP), gen_mixed_int(rng, 0), gen_mixed_int(rng, 0))
+    if r < 0.65: return ('bin', rng.choice(['and', 'or']), gen_mixed_bool(rng, d - 1), gen_mixed_bool(rng, d - 1))
+    if r < 0.75: return ('un', 'not', gen_mixed_bool(rng, d - 1))
+    if r < 0.85: return ('bin', rng.choice(CMP), gen_mixed_int(rng, d - 1), gen_mixed_int(rng, d - 1))
+    if r < 0.92: return ('bin', rng.choice(['eq', 'ne']), gen_mixed_bool(rng, d - 1), gen_mixed_bool(rng, d - 1))
+    return ('tobool', gen_mixed_int(rng, d - 1))
+
+
+MIXED_PRE = ('int id_int(int x) { return x; }\nbool id_bool(bool x) { return x; }\n'
+             'int noisy(int x) { write(\'<\'); write(x); write(\'>\'); return x; }\n'
+             'bool noisyb(bool x) { write(\'[\'); write(x); write(\']\'); return x; }\n'
+             'const int K0 = 0; const int K1 = 1; const int K2 = 2; const int K3 = 3; const int K5 = 5; const bool KF = false; const bool KT = true;\n')
+
+
+def range_exit(e, H):
+    """conservative: does any sub-expression (evaluated or not) leave [-H, H) or divide by zero when computed exactly?"""
+    trail = []
+    def ev(e):
+        k = e[0]
+        if k in ('lit', 'eff', 'rt', 'blit', 'beff'): v = e[1]
+        elif k == 'bin':
+            a, b = ev(e[2]), ev(e[3]); op = e[1]
+            if op in ('div', 'mod') and b == 0:
+                trail.append('div0'); v = 0
+            else:
+                v = {'add': lambda: a + b, 'sub': lambda: a - b, 'mul': lambda: a * b, 'div': lambda: a // b, 'mod': lambda: a % b,
+                     'lt': lambda: int(a < b), 'gt': lambda: int(a > b), 'le': lambda: int(a <= b), 'ge': lambda: int(a >= b),
+                     'eq': lambda: int(a == b), 'ne': lambda: int(a != b), 'and': lambda: int(bool(a) and bool(b)),
+                     'or': lambda: int(bool(a) or bool(b))}[op]()
+        elif k == 'un':
+            a = ev(e[2]); v = -a if e[1] == 'neg' else int(not a)
+        elif k == 'tobyte': v = ev(e[1]) & 0xFF
+        elif k == 'tobool': v = int(ev(e[1]) != 0)
+        elif k == 'toint': v = ev(e[1])
+        if not (-H <= v < H): trail.append('range')
+        return v
+    ev(e)
+    return 'range' in trail
+
+
 def hid(e, runtime):
     k = e[0]
     if k == 'lit':
         t = '(%d)' % e[1] if e[1] < 0 else str(e[1])
+        if runtime == 'const': return 'K%d' % e[1]
         return 'id_int(%s)' % t if runtime else t
+    if k == 'blit':
+        t = 'true' if e[1] else 'false'
+        if runtime == 'const': return 'KT' if e[1] else 'KF'
+        return 'id_bool(%s)' % t if runtime else t
+    if k == 'eff': return 'noisy(%d)' % e[1]
+    if k == 'rt': return 'id_int(%d)' % e[1]
+    if k == 'beff': return 'noisyb(%s)' % ('true' if e[1] else 'false')
     if k == 'bin': return '(%s %s %s)' % (hid(e[2], runtime), SYM.get(e[1], e[1]), hid(e[3], runtime))
     if k == 'un': return '(%s %s)' % ({'neg': '-', 'not': 'not'}[e[1]], hid(e[2], runtime))
     if k == 'tobyte': return '(%s is byte)' % hid(e[1], runtime)
@@ -172,11 +241,45 @@ def run(ctx):
         else: new += 1
         if (trail and known <= 1) or (not trail and new <= 3):
             ctx.violations.append(v)
-    ctx.stats['twins'] = dict(pairs=len(meta), agree=agree, differ_known_mechanism_D6=known, differ_other=new,
+    # (3) partially constant expressions with observable run-time leaves: literal / const-variable / run-time forms
+    mjobs, mmeta = [], {}
+    for i in range(ctx.budget(400, 6000)):
+        e = gen_mixed_bool(rng, rng.randint(1, 3)) if rng.random() < 0.5 else gen_mixed_int(rng, rng.randint(1, 3))
+        w = rng.choice([2, 2, 3, 4])
+        if range_exit(e, 1 << (8 * w - 1)): continue
+        for form, rt in (('lit', False), ('const', 'const'), ('run', True)):
+            src = MIXED_PRE + 'empty @is_you() { write(%s); }' % hid(e, rt)
+            mjobs.append(('m%d_%s' % (i, form), src, [], w, 100, False, 200000))
+        mmeta[i] = (e, w)
+    mcases, mrej = suites.compile_cases(mjobs)
+    mres = hidlib.run_parallel([dict(id=c['id'], asm=c['asm'], args=[], fuel=c['fuel']) for c in mcases])
+    mrej_ids = {r[0] for r in mrej}
+    magree = mdiff = mskip = 0
+    for i, (e, w) in mmeta.items():
+        b = 'm%d_run' % i
+        if b in mrej_ids or b not in mres:
+            mskip += 1; continue
+        for form in ('lit', 'const'):
+            a = 'm%d_%s' % (i, form)
+            if a in mrej_ids or a not in mres:
+                mskip += 1; continue
+            ra, rb_ = mres[a]['vm'], mres[b]['vm']
+            if ra.obs() == rb_.obs():
+                magree += 1; continue
+            mdiff += 1
+            if mdiff <= 3:
+                ctx.violations.append(dict(what='value or effects of a partially constant expression depend on compile-time evaluation (%s form vs run-time form)' % form,
+                                           kind='FOLD-EFFECT', source=MIXED_PRE + 'empty @is_you() { write(%s); }' % hid(e, False if form == 'lit' else 'const'),
+                                           twin=MIXED_PRE + 'empty @is_you() { write(%s); }' % hid(e, True), args=[],
+                                           config=dict(w=w, stack=100, unchecked=False), constant_form=suites.describe(ra), runtime_form=suites.describe(rb_)))
+    ctx.stats['mixed_twins'] = dict(expressions=len(mmeta), agree=magree, differ=mdiff, constant_form_rejected_or_missing=mskip)
+    ctx.say('mixed twins: %d expressions, agree=%d differ=%d skipped=%d' % (len(mmeta), magree, mdiff, mskip))
+    agree += magree
+    ctx.stats['twins'] = dict(pairs=len(meta), agree=agree - magree, differ_known_mechanism_D6=known, differ_other=new,
                               literal_form_rejected_at_compile_time=skipped)
-    ctx.stats['evaluations'] = len(jobs)
+    ctx.stats['evaluations'] = len(jobs) + len(mjobs)
     ctx.stats['distinct_nontrivial'] = agree
-    ctx.say('twins: %d pairs, agree=%d, known-mechanism(D6)=%d, other=%d, skipped=%d' % (len(meta), agree, known, new, skipped))
+    ctx.say('twins: %d pairs, agree=%d, known-mechanism(D6)=%d, other=%d, skipped=%d' % (len(meta), agree - magree, known, new, skipped))
     ctx.samples.append(dict(expression=hid(exprs[0][0], False), runtime_form=hid(exprs[0][0], True)))
 
 
@@ -187,6 +290,11 @@ def matches_known(k, v):
 def replay(ctx, data):
     import dump_ast
     cfg = data['config']
+    if 'twin' in data:
+        cs = [dump_ast.case(n, data[k], [], w=cfg.get('w', 2), s=100, interp=False) for n, k in (('a', 'source'), ('b', 'twin'))]
+        r = hidlib.run_batch(cs)
+        print('constant form:', r['a']['vm']); print('run-time form:', r['b']['vm'])
+        return 0 if r['a']['vm'].obs() == r['b']['vm'].obs() else 1
     c = dump_ast.case('r', data['source'], [], w=cfg.get('w', 2), s=100, interp=False)
     r = hidlib.run_batch([c])['r']['vm']
     print('vm:', r)
